@@ -153,6 +153,13 @@ func (x *Exec) checkSinks(e *ast.CallExpr, st *State, calleeShort string, args [
 		// recv denotes the receiver of a method call
 		if sel, ok := e.Fun.(*ast.SelectorExpr); ok && recv != nil {
 			if rt := x.info.TypeOf(sel.X); rt != nil {
+				if _, isSc := recv.(Sc); isSc {
+					if _, isStruct := rt.Underlying().(*types.Struct); isStruct {
+						// pointer-receiver method on an addressable struct:
+						// the receiver value is the address of its cell
+						rt = types.NewPointer(rt)
+					}
+				}
 				cx.env["recv"] = cbind{recv, rt}
 			}
 		}
